@@ -38,7 +38,33 @@ def gen(ctx, path):
             for a in (0.0, 1e-9, 0.5, 1.0):
                 B = rnd.choice([b for b in ORDER if b != A])
                 c.add(**{"from": A, "in": p + (a,), "path": [B], "mode": "a"})
+    # hue sweeps over the degenerate boundaries: every hue-bearing type with its other components on a bound or a
+    # billionth inside it, the hue stepping through the whole circle (phase drawn from the seed), to every other type
+    step = 1.0 if ctx.quick else 0.25
+    phase = rnd.uniform(0, step)
+    hues = [phase + k * step for k in range(int(360 / step))] + OK_PRIMARY_HUES
+    for A in ORDER:
+        rs = NODES[A]
+        if None not in rs:
+            continue
+        axes = []
+        for r in rs:
+            if r is None:
+                axes.append(hues)
+            else:
+                lo, hi = r
+                t = 1.001e-9 * (hi - lo)
+                axes.append([lo, lo + t, hi - t, hi] + ([] if ctx.quick else [(lo + hi) / 2]))
+        for p in itertools.product(*axes):
+            if A in HWB and p[1] + p[2] > 1.0:
+                continue
+            c.add(op="fan", **{"from": A, "in": p})
     return c.close()
+
+
+# Oklab hues of the sRGB primaries and secondaries (sector edges of the Ok cusp search) and their last-digit neighbours
+OK_PRIMARY_HUES = [h + d for h in (29.2338851923426, 109.769232492044, 142.495338887664, 194.768947627317, 264.052020638055, 328.363418050535)
+                   for d in (-1e-6, 0.0, 1e-6)]
 
 
 def coords_of(ev, why):
@@ -118,6 +144,14 @@ def run(ctx):
             lambda e: True)
         for (line, ev, info, _) in res.rejected:
             why = info.strip().strip('"')
+            if ev["ev"] == "fan":
+                # one report per failing target, as the single conversion it stands for (replayable as such)
+                for to in (ev["panics"] if why == "panic" else ev["bad"]) or ["?"]:
+                    w = {"ev": "walk", "nodes": [ev["from"], to], "vals": [ev["in"]], "mode": "u", "t": ev.get("t")}
+                    d = coords_of(w, why)
+                    what = "%s %s -> %s: %s for input %s" % (ev.get("t"), ev["from"], to, why, [dy_to_float(x) for x in ev["in"]])
+                    report(ctx, d, what, {"bin": b, "event": w, "trace_line": line})
+                continue
             d = coords_of(ev, why)
             what = "%s %s -> %s: %s for input %s" % (ev.get("t"), d.get("from"), d.get("to"), why,
                                                      [dy_to_float(x) for x in (ev["vals"][0] if "vals" in ev else ev["in"])])
